@@ -84,6 +84,27 @@ CheckObs(S, id, o) ==
                    /\ Say(~a.list \/ \A i \in 1..Len(o.r.v.prefix) : o.r.v.prefix[i] = <<>>, id, "C16",
                           "format.list_has_prefix", why))
 
+CheckExport(S, id, o) ==
+   LET a == o.a why == ToString(o.a)
+       keys == ExportNodeKeys(S, a.start, a.self, a.unique)
+       edges == ExportEdges(S, a.start, a.self, a.unique)
+       Names(i) == ExportKey(S, i, a.unique)
+   IN
+   /\ Say(o.r.s = "ok", id, "C17", "export.status:" \o a.fmt \o ":" \o o.r.s, why)
+   /\ (o.r.s = "ok" =>
+         /\ Say(SeqSet(o.r.v.nodes) = keys, id, "C17", "export.graph_nodes:" \o a.fmt, why)
+         /\ Say(a.fmt = "rdf" \/ NoDup(o.r.v.nodes) \/ a.dup_defs_ok, id, "C17", "export.node_defined_twice:" \o a.fmt, why)
+         /\ Say(IF a.fmt = "rdf" THEN SeqSet(o.r.v.edges) = {<<e[1], e[2]>> : e \in SeqSet(edges)}
+                ELSE SameBag(o.r.v.edges, [j \in 1..Len(edges) |-> <<edges[j][1], edges[j][2]>>]),
+                id, "C17", "export.edges:" \o a.fmt, why)
+         /\ Say(~S.typed \/ (IF a.fmt = "rdf"
+                               THEN SeqSet(o.r.v.kinds) = {<<ExportKey(S, i, a.unique), S.knd[i]>> : i \in ExportMembers(S, a.start, a.self) \ {0}}
+                               ELSE SameBag(o.r.v.edge_kinds, edges)),
+                id, "C17", "export.kind_labels:" \o a.fmt, why)
+         \* every exported tree node's name is carried by its graph node
+         /\ Say(\A i \in Desc(S, a.start) : <<Names(i), S.dat[i]>> \in SeqSet(o.r.v.names), id, "C17",
+                "export.names:" \o a.fmt, why))
+
 CheckFilter(S, id, o) ==
    LET a == o.a why == ToString([p |-> a.p, v |-> a.v, form |-> a.form])
        K == FilterKeep(S, a.p, a.v)
@@ -114,6 +135,7 @@ CheckFilter(S, id, o) ==
 
 CheckRec(e) == LET S == LoadState(e.st) IN
    \A j \in 1..Len(e.obs) : IF e.obs[j].q \in {"filter_inplace", "filter_copy"} THEN CheckFilter(S, e.id, e.obs[j])
+                              ELSE IF e.obs[j].q = "export" THEN CheckExport(S, e.id, e.obs[j])
                               ELSE CheckObs(S, e.id, e.obs[j])
 NObs == FoldLeft(LAMBDA acc, e : acc + Len(e.obs), 0, Recs)
 
